@@ -339,7 +339,11 @@ impl<'tcx> Cx<'tcx> {
             Rvalue::UnaryOp(u, op) => {
                 format!("[\"un\",{},{}]", jstr(&format!("{:?}", u)), self.operand(owner, body, op))
             }
-            Rvalue::Discriminant(p) => format!("[\"discr\",{}]", self.place(body, p)),
+            Rvalue::Discriminant(p) => {
+                let pty = p.ty(&body.local_decls, tcx).ty;
+                let ti = self.tyi(pty);
+                format!("[\"discr\",{},{}]", self.place(body, p), ti)
+            }
             Rvalue::CopyForDeref(p) => format!("[\"use\",[\"c\",{}]]", self.place(body, p)),
             Rvalue::Aggregate(k, ops) => {
                 let opss: Vec<String> = ops.iter().map(|x| self.operand(owner, body, x)).collect();
